@@ -146,7 +146,7 @@ def rbxHistory (ops : List String) : String :=
       | ["c", k, v, f, r] =>
         match k.toNat?, v.toNat?, f.toNat?, r.toNat? with
         | some k, some v, some f, some r =>
-          let (s', out) := RbxCache.call rbxOk 0 s ⟨k, v, f == 1, r⟩
+          let (s', out) := RbxCache.call rbxOk (fun r => r == 0 || (5 ≤ r && r ≤ 9)) s ⟨k, v, f == 1, r⟩
           let o := match out with
             | .fwd t => s!"fwd:{t.1}:{t.2}"
             | .inv t => s!"inv:{t.1}:{t.2.1}:{t.2.2}"
